@@ -379,7 +379,7 @@ def strat_pandas():
 
 
 FAMILIES = [
-    Family("pandas", eval_pandas, strategy=strat_pandas, n_quick=800, n_thorough=6000, shards_quick=6,
+    Family("pandas", eval_pandas, strategy=strat_pandas, n_quick=1600, n_thorough=6000, shards_quick=6,
            shards_thorough=16,
            required_labels=["pd:outcome=ok", "pd:outcome=parser-error", "pd:container=index", "pd:container=column",
                             "pd:mix=convertible+null+unconvertible"]),
@@ -683,7 +683,7 @@ def strat_polars():
 
 
 FAMILIES.append(
-    Family("polars", eval_polars, strategy=strat_polars, n_quick=450, n_thorough=3500, shards_quick=6, shards_thorough=16,
+    Family("polars", eval_polars, strategy=strat_polars, n_quick=900, n_thorough=3500, shards_quick=6, shards_thorough=16,
            required_labels=["pl:outcome=ok", "pl:outcome=parser-error", "pl:route=schema",
                             "pl:mix=convertible+null+unconvertible"]))
 
